@@ -326,7 +326,7 @@ def main():
         shits = s.monitors[prop](s, small, sobs)
         replay_path = os.path.join(VERIF, "replays", f"{prop}-{seed}-{int(time.time())}.json")
         json.dump({"property": prop, "kind": "concrete-failing-input", "stream": sname, "clause": clause,
-                   "detail": (shits[0][2] if shits else detail), "ops": small, "real_observations": sobs,
+                   "detail": next((h[2] for h in shits if h[1] == clause), detail), "ops": small, "real_observations": sobs,
                    "broken_obligations": broken, "how_to_replay": f"bin/check {prop} --replay {replay_path}"},
                   open(replay_path, "w"), indent=1)
         out_lines.append(f"VIOLATION property={prop} replay={replay_path}")
